@@ -91,6 +91,7 @@ type Config struct {
 	Deadline     time.Time
 	Witnesses    int
 	ReverseMaps  bool
+	ReverseMapsPerRange bool
 	Verbose      bool
 	OnlyPath     []uint64 // debugging: follow this decision vector only
 }
@@ -269,6 +270,7 @@ func (ex *Exec) ufFind(s string) string {
 }
 
 type Exec struct {
+	mapOrder  int // 0 undecided, 1 insertion order, 2 reversed (ReverseMaps without ReverseMapsPerRange)
 	mcache    *modelCache
 	P         *Program
 	cfg       *Config
